@@ -2843,6 +2843,16 @@ func keyValuesToTreasure(keyValuePair *hydrapb.KeyValuePair, treasureInterface t
 func guardedTreasureToKeyValuePair(treasureInterface treasure.Treasure, t *hydrapb.Treasure) {
 	guardID := treasureInterface.StartTreasureGuard(true)
 	defer treasureInterface.ReleaseTreasureGuard(guardID)
+	// The record may have been deleted or shifted out between the lookup and the guard. A removed
+	// record that had reached the storage file carries the deletion mark and has lost its content
+	// (a writer that still holds the object may even have started a new value in it): it does not
+	// exist any more, so it must not be reported as an existing record without - or with a never
+	// stored - value.
+	if treasureInterface.GetDeletedAt() > 0 {
+		t.Key = treasureInterface.GetKey()
+		t.IsExist = false
+		return
+	}
 	treasureToKeyValuePair(treasureInterface, t)
 }
 
